@@ -48,4 +48,5 @@ props! {
     "C06" => c06,
     "C07" => c07,
     "C09" => c09,
+    "C13" => c13,
 }
